@@ -102,7 +102,9 @@ Theorem step_coarse_copy legacy fd prev car fo : tmpl_dict fd -> resolve_step_fu
   exists cf : Z -> Z,
     (forall a b, In a (node_keys frag) -> In b (node_keys frag) -> cf a = cf b -> a = b) /\
     (forall n, In n frag -> node_get (fo_mol fo) (cf (nk n)) (S "fragid") = Some (VList [VInt (nk mn)]) /\
-                            node_get (fo_mol fo) (cf (nk n)) (S "mapping") = Some (mapping_val name (nk n))) /\
+                            node_get (fo_mol fo) (cf (nk n)) (S "mapping") = Some (mapping_val name (nk n)) /\
+                            forall key, key <> S "fragid" -> key <> S "mapping" -> key <> S "ez_isomer_atoms" -> key <> S "hcount" ->
+                                        node_get (fo_mol fo) (cf (nk n)) key = aget key (na n)) /\
     (forall a b, In a (node_keys frag) -> In b (node_keys frag) ->
        has_edge (fo_mol fo) (cf a) (cf b) = has_edge frag a b /\
        forall key, edge_get (fo_mol fo) (cf a) (cf b) key = tmpl_get frag a b key).
@@ -125,10 +127,11 @@ Proof.
   { intros t Ht. unfold node_keys in Ht. apply in_map_iff in Ht as [n [<- Hn]]. eapply node_get_some_in. exact (proj1 (Hn0 n Hn)). }
   exists (fun t => map_get m (cf0 t)). split; [|split].
   - intros a b Ha Hb E. apply Inj0; [exact Ha|exact Hb|]. apply Inj; [now apply Hin|now apply Hin|exact E].
-  - intros n Hn. destruct (Hn0 n Hn) as [A B]. assert (In (nk n) (node_keys frag)) as Hk by (unfold node_keys; now apply in_map).
+  - intros n Hn. destruct (Hn0 n Hn) as [A [B Ck]]. assert (In (nk n) (node_keys frag)) as Hk by (unfold node_keys; now apply in_map).
     assert (S "fragid" <> S "ez_isomer_atoms") as N1 by (intros X; apply str_eqb_eq in X; vm_compute in X; discriminate).
     assert (S "mapping" <> S "ez_isomer_atoms") as N2 by (intros X; apply str_eqb_eq in X; vm_compute in X; discriminate).
-    rewrite (Hng _ _ (Hin _ Hk) N1), (Hng _ _ (Hin _ Hk) N2). exact (conj A B).
+    rewrite (Hng _ _ (Hin _ Hk) N1), (Hng _ _ (Hin _ Hk) N2). split; [exact A|]. split; [exact B|].
+    intros key K1 K2 K3 K4. rewrite (Hng _ _ (Hin _ Hk) K3). now apply Ck.
   - intros a b Ha Hb. split.
     + rewrite Hhe by auto. rewrite !has_edge_attrs, (He0 a b Ha Hb). unfold tmpl_edge. destruct (edge_attrs frag a b); reflexivity.
     + intros key. rewrite (RelabelEdges.sort_edge_get m2 m5 key W Adj Edn Fid E5 (fun x y => f_equal (fun r => match r with Ok d => aget key d | Err _ => None end) (Sy x y)) m Em0 (cf0 a) (cf0 b) (Hin a Ha) (Hin b Hb)).
